@@ -194,4 +194,211 @@ theorem stream_exact : StreamExact true := by
   intro G H hloc src o h
   exact stream_exact_partial G H hloc true src o h (strict_checked G H _ src o h)
 
+
+/-- `control_hash_exact`: the value compared with the index checksum is the SHA-1 of exactly the bytes of the control
+member — for signed (the second member) and unsigned (the first member) packages alike -/
+theorem control_hash_exact (G : Gz) (H : Hashes) (hloc : G.Local) (src : Bytes) (o : Out)
+    (h : expandStream G H Impl.slowChunk true src = .ok o) :
+    ∃ r, ranges G src = some r ∧ o.controlFile = r.control ∧ o.controlHash = H.sha1 r.control ∧
+      o.sigHash = r.sig.map H.sha1 := by
+  obtain ⟨r, e⟩ := stream_exact G H hloc src o h
+  exact ⟨r, e.ranges, e.controlFile, e.controlHash, e.sigHash⟩
+
+/-- `data_hash_exact`: the value compared with the datahash of .PKGINFO is the SHA-256 of exactly the bytes from the
+start of the data member to the end of the source -/
+theorem data_hash_exact (G : Gz) (H : Hashes) (hloc : G.Local) (src : Bytes) (o : Out)
+    (h : expandStream G H Impl.slowChunk true src = .ok o) :
+    ∃ r, ranges G src = some r ∧ o.packageFile = r.data ∧ o.packageHash = H.sha256 r.data ∧
+      r.sig.getD [] ++ r.control ++ r.data = src := by
+  obtain ⟨r, e⟩ := stream_exact G H hloc src o h
+  refine ⟨r, e.ranges, e.packageFile, e.packageHash, ?_⟩
+  have := (sizes_exact G H _ true src o h).1
+  rw [e.sigFile, e.controlFile, e.packageFile] at this
+  exact this
+
+/-- `files_written_exact`: the per-member files on disk hold exactly the members' bytes; the `.tar` is the gunzip of
+the data range and what gets installed is its tar walk, which passed `checkSums` -/
+theorem files_written_exact (G : Gz) (H : Hashes) (hloc : G.Local) (src : Bytes) (o : Out)
+    (h : expandStream G H Impl.slowChunk true src = .ok o) :
+    ∃ r, ranges G src = some r ∧ o.sigFile = r.sig ∧ o.controlFile = r.control ∧ o.packageFile = r.data ∧
+      o.signed = r.sig.isSome ∧ gunzipAll G r.data = some o.tarFile ∧ G.untar o.tarFile = some o.files ∧
+      checkSums (libOf G H) o.files = true := by
+  obtain ⟨r, e⟩ := stream_exact G H hloc src o h
+  exact ⟨r, e.ranges, e.sigFile, e.controlFile, e.packageFile, e.signed, e.tar, e.files, e.checked⟩
+
+/-! ### `Split` / `ResolveApk` -/
+
+/-- `Split` returns exactly the ranges of the format (no `Local` needed: nothing is read back) -/
+theorem split_exact (G : Gz) (src : Bytes) (ps : List Bytes) (h : splitParts G src = .ok ps) :
+    ∃ r, ranges G src = some r ∧ ps = r.sig.toList ++ [r.control, r.data] ∧ ps.flatten = src := by
+  unfold splitParts at h
+  unfold ranges
+  split at h
+  · cases h
+  · next n0 d0 hm0 =>
+    split at h
+    · cases h
+    · next nm hfn =>
+      try simp only [hfn]
+      split at h
+      · next hsg =>
+        try simp only [hsg, if_true]
+        split at h
+        · cases h
+        · next n1 d1 hm1 =>
+          cases h; simp
+          have : List.drop (n0 + n1) src = List.drop n1 (List.drop n0 src) := by simp
+          rw [this, List.take_append_drop, List.take_append_drop]
+      · next hsg => cases h; simp [hsg]
+
+theorem resolve_exact (G : Gz) (H : Hashes) (src : Bytes) (rs : Resolved) (h : resolve G H src = .ok rs) :
+    ∃ r, ranges G src = some r ∧ rs.controlHash = H.sha1 r.control ∧ rs.dataHash = H.sha256 r.data ∧
+      rs.sigHash = r.sig.map H.sha1 ∧ rs.controlSize = r.control.length ∧ rs.dataSize = r.data.length ∧
+      rs.sigSize = (r.sig.getD []).length := by
+  unfold resolve at h
+  split at h
+  · cases h
+  · next c d hs =>
+    obtain ⟨r, hr, hps, _⟩ := split_exact G src _ hs
+    cases hsig : r.sig with
+    | some x => rw [hsig] at hps; simp at hps
+    | none =>
+      rw [hsig] at hps; simp at hps; cases h
+      exact ⟨r, hr, by simp [hps.1], by simp [hps.2], by simp [hsig], by simp [hps.1], by simp [hps.2], by simp [hsig]⟩
+  · next s c d hs =>
+    obtain ⟨r, hr, hps, _⟩ := split_exact G src _ hs
+    cases hsig : r.sig with
+    | none => rw [hsig] at hps; simp at hps
+    | some x =>
+      rw [hsig] at hps; simp at hps; cases h
+      exact ⟨r, hr, by simp [hps.2.1], by simp [hps.2.2], by simp [hsig, hps.1], by simp [hps.2.1], by simp [hps.2.2],
+             by simp [hsig, hps.1]⟩
+  · cases h
+
+/-- the two splitters agree: what `ExpandApk` (repaired) accepts, `Split` cuts at the same places -/
+theorem expand_split_agree (G : Gz) (H : Hashes) (hloc : G.Local) (src : Bytes) (o : Out)
+    (h : expandStream G H Impl.slowChunk true src = .ok o) :
+    splitParts G src = .ok (o.sigFile.toList ++ [o.controlFile, o.packageFile]) := by
+  obtain ⟨r, e⟩ := stream_exact G H hloc src o h
+  have hr := e.ranges
+  rw [e.sigFile, e.controlFile, e.packageFile]
+  unfold ranges at hr
+  unfold splitParts
+  split at hr
+  · cases hr
+  · next n0 d0 hm0 =>
+    split at hr
+    · cases hr
+    · next nm hfn =>
+      try simp only [hfn]
+      split at hr
+      · next hsg =>
+        try simp only [hsg, if_true]
+        split at hr
+        · cases hr
+        · next n1 d1 hm1 => cases hr; simp
+      · next hsg => cases hr; simp [hsg]
+
+
+/-! ### composition with Model/Authentic: the hashes are DERIVED from the stream -/
+
+/-- an accepted, checked stream is `Authentic.expand` of the ranges of the format, for the library that goes with the
+gzip / tar / hash functions: the `Apk` the theorems of Proofs/C05 take as given is the one the stream defines -/
+theorem expand_refines (G : Gz) (H : Hashes) (hloc : G.Local) (strict : Bool) (src : Bytes) (o : Out)
+    (h : expandStream G H Impl.slowChunk strict src = .ok o) (hk : o.checked = true) :
+    ∃ r, ranges G src = some r ∧ expand (libOf G H) r.apk = .ok o.expanded := by
+  obtain ⟨r, e⟩ := stream_exact_partial G H hloc strict src o h hk
+  refine ⟨r, e.ranges, ?_⟩
+  have hu : (libOf G H).untarData r.data = some o.files := by
+    simp [libOf, e.tar, e.files]
+  unfold expand
+  simp only [Ranges.apk, hu, e.checked, if_true]
+  simp [Out.expanded, libOf, e.sigFile, e.controlFile, e.packageFile, e.controlHash, e.packageHash]
+
+/-- whatever `expandPackage` returns for a fetched STREAM, `expandPackage` of Model/Authentic returns for the `Apk` cut
+out of it along the ranges of the format -/
+theorem expandPackageStream_refines (G : Gz) (H : Hashes) (hloc : G.Local) (verify : Bool) (w : Want)
+    (cache cache2 : Option Cache) (fetched : Option Bytes) (e : Expanded)
+    (h : expandPackageStream verify true G H w cache fetched = .ok (e, cache2)) :
+    ∃ fa : Option Apk, expandPackageWith verify (libOf G H) w cache fa = .ok (e, cache2) ∧
+      (cache.bind (cachedPackage (libOf G H) w.key) = none →
+        ∃ s r, fetched = some s ∧ ranges G s = some r ∧ fa = some r.apk) := by
+  unfold expandPackageStream at h
+  split at h
+  · next e0 hhit =>
+    refine ⟨none, ?_, ?_⟩
+    · unfold expandPackageWith; rw [hhit]; exact h
+    · intro hm; rw [hm] at hhit; cases hhit
+  · next hmiss =>
+    split at h
+    · cases h
+    · next s =>
+      split at h
+      · cases h
+      · next o ho =>
+        obtain ⟨r, hr, hexp⟩ := expand_refines G H hloc true s o ho (strict_checked G H _ s o ho)
+        refine ⟨some r.apk, ?_, fun _ => ⟨s, r, rfl, hr, rfl⟩⟩
+        unfold expandPackageWith
+        rw [hmiss]
+        simp only [hexp]
+        exact h
+
+/-- `install_authentic` with the hashes DERIVED from the fetched stream: whatever the (repaired) `expandPackage` returns
+for the bytes a repository serves — disabled, cold or warm cache — is authentic for the expected checksum; and when it
+came from the stream, the expected checksum is the SHA-1 of exactly the control member and the datahash of its .PKGINFO
+is the SHA-256 of exactly the rest of the stream (or is empty: F05c) -/
+theorem install_authentic_stream (G : Gz) (H : Hashes) (hloc : G.Local) (hx : HexCanonical (libOf G H)) (w : Want)
+    (cache cache2 : Option Cache) (fetched : Option Bytes) (e : Expanded)
+    (hinv : ∀ c, cache = some c → CacheInv (libOf G H) c)
+    (h : expandPackageStream true true G H w cache fetched = .ok (e, cache2)) :
+    Authentic (libOf G H) w.digest e ∧ checkSums (libOf G H) e.files = true ∧
+    (cache.bind (cachedPackage (libOf G H) w.key) = none →
+      ∃ s r, fetched = some s ∧ ranges G s = some r ∧ w.digest = some (H.sha1 r.control) ∧
+        DataMatches (libOf G H) r.control r.data ∧ r.sig.getD [] ++ r.control ++ r.data = s) := by
+  obtain ⟨fa, hfa, hsrc⟩ := expandPackageStream_refines G H hloc true w cache cache2 fetched e h
+  obtain ⟨ha, hc⟩ := C05.install_authentic (libOf G H) hx w cache cache2 fa e hinv hfa
+  refine ⟨ha, hc, ?_⟩
+  intro hmiss
+  obtain ⟨s, r, hf, hr, hfa2⟩ := hsrc hmiss
+  subst hf; subst hfa2
+  refine ⟨s, r, rfl, hr, ?_, ?_, ?_⟩
+  · -- the verification step compared the computed control hash with the expected one
+    unfold expandPackageWith at hfa
+    rw [hmiss] at hfa
+    simp only at hfa
+    split at hfa
+    · cases hfa
+    · next e0 hexp =>
+      obtain ⟨_, _, _, h1, _, _, h4, _⟩ := C05.files_checked (libOf G H) r.apk e0 hexp
+      simp only [if_true] at hfa
+      split at hfa
+      · cases hfa
+      · next hver =>
+        have := (C05.verifyExpanded_spec (libOf G H) w.digest e0 hver).1
+        rw [this, h4]; rfl
+  · unfold expandPackageWith at hfa
+    rw [hmiss] at hfa
+    simp only at hfa
+    split at hfa
+    · cases hfa
+    · next e0 hexp =>
+      obtain ⟨_, _, _, h1, _, h3, _, h5⟩ := C05.files_checked (libOf G H) r.apk e0 hexp
+      simp only [if_true] at hfa
+      split at hfa
+      · cases hfa
+      · next hver =>
+        obtain ⟨_, info, dh, hinfo, hdh, hd⟩ := C05.verifyExpanded_spec (libOf G H) w.digest e0 hver
+        refine ⟨info, dh, ?_, hdh, ?_⟩
+        · rw [h1] at hinfo; exact hinfo
+        · rw [h5] at hd; exact hd
+  · unfold expandPackageStream at h
+    rw [hmiss] at h
+    simp only at h
+    split at h
+    · cases h
+    · next o ho =>
+      obtain ⟨r2, hr2, hpf, _, hpart⟩ := data_hash_exact G H hloc s o ho
+      rw [hr] at hr2; cases hr2
+      exact hpart
+
 end Apko.C05Split
